@@ -22,7 +22,7 @@ pub enum Frag {
     Leaf(u16, usize),
 }
 
-const EVIDENCE: usize = 11;
+const EVIDENCE: usize = 14;
 
 /// Environment leaves: code fragments that use the same leaf must still not influence each other's slots.
 const LEAVES: [u8; 17] = [
@@ -107,6 +107,32 @@ fn evidence(i: usize, s: U) -> Vec<Vec<Tok>> {
         8 => {
             // an address is loaded and the path then runs into INVALID with the value still on the stack
             vec![vec![pu(s), o(op::SLOAD), pu(addr_mask()), o(op::AND), o(op::DUP1), o(op::BALANCE), o(0xfe)]]
+        }
+        11 => {
+            // a mapping element with a small CONSTANT key (m[5] = x; y = m[5]): the key is a small number, the base slot may not be
+            let key = |k: u64| vec![p(k), p(0), o(op::MSTORE), pu(s), p(0x20), o(op::MSTORE), p(0x40), p(0), o(op::SHA3)];
+            let mut w = vec![p(4), o(op::CALLDATALOAD)];
+            w.extend(key(5));
+            w.extend([o(op::SSTORE), o(op::STOP)]);
+            let mut r = key(5);
+            r.push(o(op::SLOAD));
+            r.extend(ret());
+            vec![w, r]
+        }
+        12 => {
+            // a nested mapping whose outer key is the constant 0 and whose inner key is the caller
+            let mut r = vec![p(0), p(0), o(op::MSTORE), pu(s), p(0x20), o(op::MSTORE), p(0x40), p(0), o(op::SHA3)];
+            r.extend([p(0x20), o(op::MSTORE), o(op::CALLER), p(0), o(op::MSTORE), p(0x40), p(0), o(op::SHA3), o(op::SLOAD)]);
+            r.extend(ret());
+            vec![r]
+        }
+        13 => {
+            // a dynamic array accessed at constant indices (a[0] and a[3])
+            let mut a = vec![p(4), o(op::CALLDATALOAD), pu(s), p(0), o(op::MSTORE), p(0x20), p(0), o(op::SHA3), o(op::SSTORE), o(op::STOP)];
+            let mut b = vec![pu(s), p(0), o(op::MSTORE), p(0x20), p(0), o(op::SHA3), p(3), o(op::ADD), o(op::SLOAD)];
+            b.extend(ret());
+            a.truncate(a.len());
+            vec![a, b]
         }
         9 => {
             // the top byte of the slot, masked once more with a wider mask (a nested sub-word that claims bits beyond 255)
@@ -380,9 +406,9 @@ impl Check for C11 {
         let n = family(tier).len();
         let rule = format!(
             "fragment family of {n} single-variable code fragments with an abstract slot (7 representative idiom kinds x 3 access modes \
-             x {} spellings{}, 4 uses (raw store, one-byte mask, signed compare, account address) of each of 17 environment opcodes and of 3 shared constants, 11 hand-written multi-evidence fragments: address use + zero test, caller stored + signed compare, counter, \
+             x {} spellings{}, 4 uses (raw store, one-byte mask, signed compare, account address) of each of 17 environment opcodes and of 3 shared constants, 14 hand-written multi-evidence fragments: address use + zero test, caller stored + signed compare, counter, \
              one-byte flag, length / call target, timestamp + selector-sized field, a path aborted by a jump to an invalid constant target or by INVALID with a \
-             loaded value still on the stack, an internal setter that stores the word it finds on the stack, two reads of a field at the top of the slot that is masked again with a wider mask), each composition in strict and in permissive error mode. ALL ordered pairs (A, B) x 3 dispatcher shapes \
+             loaded value still on the stack, an internal setter that stores the word it finds on the stack, two reads of a field at the top of the slot that is masked again with a wider mask, a mapping element with a small constant key, a nested mapping with a constant outer key, a dynamic array at constant indices), each composition in strict and in permissive error mode. ALL ordered pairs (A, B) x 3 dispatcher shapes \
              (selector compare, reversed layout, two chained conditional jumps) x 2 slot assignments: layout(D(A,B)) must equal \
              layout(D(A)) u layout(D(B)) as entry sets, and layout(D(A)) must only have entries at A's slot. Renumbering: two-fragment programs x all 30 injective maps of their slots \
              into {{0, 1, 2, 77, 2^128+5, 2^255}} (changes PUSH widths, so programs are re-assembled): layout(rho(P)) = rho(layout(P)). \
